@@ -502,6 +502,7 @@ type vsSess struct {
 	pending *vsHdr // expect_header read a header whose payload expect_rest has still to read
 	gateCh  chan struct{}
 	holdCh  chan struct{} // write_fail hold: closed by release_write
+	awaitHeld bool        // hold_await: the script holds c.awaitMu (the write loop stops between accepting a request and handing out its token)
 }
 
 func vsClassify(err error) string {
@@ -868,9 +869,13 @@ func (s *vsSess) state() vsObs {
 	if s.c == nil {
 		return o
 	}
-	s.c.awaitMu.Lock()
-	o["awaiting"] = len(s.c.awaiting)
-	s.c.awaitMu.Unlock()
+	if s.awaitHeld {
+		o["awaiting"] = len(s.c.awaiting)
+	} else {
+		s.c.awaitMu.Lock()
+		o["awaiting"] = len(s.c.awaiting)
+		s.c.awaitMu.Unlock()
+	}
 	o["ackq"] = len(s.c.ackQueue)
 	if s.cc == nil { // a client that is not connected (new_client)
 		o["writing"] = false
@@ -1111,6 +1116,25 @@ func (s *vsSess) step(st vsStep) vsObs {
 		}
 		atomic.StoreInt32(&s.cc.failArmed, 1)
 		return vsObs{"st": "ok"}
+	case "hold_await":
+		// in-package: the script takes the await-map lock. The write loop, having received a request from the send queue,
+		// stops where it registers the reply channel — after accepting the request, before handing the token to the sender
+		if s.c == nil || s.awaitHeld {
+			return vsObs{"st": "noclient"}
+		}
+		s.c.awaitMu.Lock()
+		s.awaitHeld = true
+		return vsObs{"st": "ok"}
+	case "release_await":
+		if !s.awaitHeld {
+			return vsObs{"st": "no-hold"}
+		}
+		s.awaitHeld = false
+		s.c.awaitMu.Unlock()
+		if !s.settle() {
+			return vsObs{"st": "timeout"}
+		}
+		return vsObs{"st": "ok"}
 	case "release_write":
 		// the Write parked by write_fail hold now fails
 		if s.holdCh == nil {
@@ -1206,6 +1230,10 @@ func (s *vsSess) finish() vsObs {
 	if s.holdCh != nil {
 		close(s.holdCh)
 		s.holdCh = nil
+	}
+	if s.awaitHeld {
+		s.awaitHeld = false
+		s.c.awaitMu.Unlock()
 	}
 	for _, cr := range s.callers {
 		cr.cancel()
